@@ -29,10 +29,8 @@ pub fn allocate_array(
     types: &UserDefinedTypes,
 ) -> Result<Variant, RuntimeError> {
     let dimensions = to_dimensions(dimension_args)?;
-    Ok(Variant::VArray(Box::new(VArray::new(
-        dimensions,
-        allocate_array_element(element_type, types),
-    ))))
+    let v_array = VArray::try_new(dimensions, allocate_array_element(element_type, types))?;
+    Ok(Variant::VArray(Box::new(v_array)))
 }
 
 fn to_dimensions(dimension_args: Vec<i32>) -> Result<Vec<(i32, i32)>, RuntimeError> {
